@@ -9,22 +9,40 @@ import modelrun
 from ref import oracle
 
 GEN_FILES = []
-EXTRA_TARGETS = ["Extract/ExtractHasher.vo"]
-AREAS = ["hasher"]
+EXTRA_TARGETS = ["Extract/ExtractHasher.vo", "Extract/ExtractCreators.vo"]
+AREAS = ["hasher", "creators"]
+CREATOR_KINDS = ["v1", "v1-align"]
+# Appendix B "creators" classes that concern the v1 creator (shared roots / piece layers do not exist in a v1 metafile)
+CREATOR_CLASSES = ["single file", "flat", "nested", "full-path order != per-directory order", "empty directory present",
+                   "creator v1", "creator v1-align"]
 RULE = ("model tie: the extracted Coq model of Hasher (hasher_inputs) vs the real Hasher iterator on the same file-size "
         "tuples -- small scope (1..4 files, sizes 0..6, piece length 1..4; exhaustive in the thorough tier, sampled in quick) "
-        "and generated real-granularity cases; end to end: TorrentFile(...) and `torrentfile create` on generated trees "
+        "and generated real-granularity cases; unit correspondence of Model/Creators.v (create_v1 = MetaFile.__init__, "
+        "utils._filelist_total, TorrentFile.assemble, sort_meta; the creator-level theorems rest on it): TorrentFile with align "
+        "False and True writes a metafile for generated content trees (single file / flat / nested to depth 3 / a directory next "
+        "to a sibling whose name sorts between it and its children / identical files / multi-piece files / empty directories / "
+        "names differing only in case / non-ASCII names; sizes from {0,1,B+-1,B,pl+-1,pl,2pl+-1,...}), an option subset, one of 25 "
+        "spellings of the path, a patched clock and the enumeration order of every directory fixed by a runner-side patch of "
+        "os.listdir/os.scandir and handed to the model as the order of its entry lists -- the extracted create_v1 composed with "
+        "Model/Bencode.v encode predicts the BYTES of the written file, compared byte for byte; utils.filelist_total (total and "
+        "order of the listed files) vs the extracted filelist_total; end to end: TorrentFile(...) and `torrentfile create` on generated trees "
         "(1..7 files, depth <= 3, sizes from the boundary set {0,1,B-1,B,B+1,pl-1,pl,pl+1,k*pl+-1,...} plus random), the written "
         "metafile is decoded by the reference strict decoder and files/length/piece length/pieces are compared with reference BEP 3 "
         "hashing of the tree as it is on disk.  A case is non-trivial when it is distinct and hits at least one boundary class.")
 TRUSTED_BASE = [
     "Coq 8.16.1 kernel; theorems closed under the global context; SHA-1 is an arbitrary function H1 in every theorem",
     "hand-written model Model/Hasher.v tied to hasher.py by differential execution (extracted OCaml vs the real iterator)",
+    "hand-written models Model/Creators.v (create_v1, filelist_total), Model/Bencode.v (pyben's encoder) and Spec/PathSem.v (name and "
+    "path components from the path string) tied to torrent.py / utils.py by differential execution: extracted OCaml vs the bytes "
+    "TorrentFile(...).write() produces, under a controlled enumeration order (runner-side patch of os.listdir/os.scandir), a patched "
+    "clock (torrentfile.torrent.datetime) and, for cases marked patched_constant, a patched torrentfile.hasher.BLOCK_SIZE",
     "extraction: ExtrOcamlBasic, ExtrOcamlString; OCaml SHA-1 (ocaml/sha.ml, self-tested against hashlib) for the correspondence only",
     "os.listdir/readinto/getsize on regular files behave as specified; no concurrent writer",
 ]
 ASSUMPTIONS = ["no symlinks or special files in the content tree (excluded by the property)",
-               "model of filelist_total ordering is exercised end to end, not separately proved here (see C08)"]
+               "file names are valid UTF-8 without '/' (a Python str is collapsed to its UTF-8 bytes; code-point order = byte order)",
+               "the payload contains at least one file (Hasher([]) raises; excluded by the creator-level theorems via has_file)",
+               "independence of the enumeration order / path spelling is C08's subject; here the order is an input of model and code alike"]
 
 
 def hasher_impl(tmp, sizes, pl, align, datas=None):
@@ -186,10 +204,17 @@ def _to_bytes(v):
 
 
 def run(ctx, model_ok):
+    from props import creators_common as cc
     unit_scope(ctx, False, model_ok)
+    quick = ctx.tier == "quick"
+    cc.unit_for(ctx, model_ok, CREATOR_KINDS, n=180 if quick else 1440, budget=90000 if quick else 300000,
+                required=CREATOR_CLASSES)
     e2e(ctx)
 
 
 def replay(ctx, data):
+    from props import creators_common as cc
+    if data.get("disagreements") or data.get("broken") or "what" in data:
+        return cc.replay_disagreements(ctx, data, "C01")
     print(data)
     return 0
